@@ -261,12 +261,23 @@ func runC01(c *Case, e *Env) Outcome {
 					out.Close()
 					return
 				}
-				for k, b := range payload[i] {
+				// like bufio.Writer or an io.Copy loop, the writer reuses one buffer for every chunk: the pipe
+				// must have taken a copy by the time Write returns
+				var scratch []byte
+				for k, chunk := range payload[i] {
 					if w.Nested[i] == k {
 						out.Open()
 					}
+					if cap(scratch) < len(chunk) {
+						scratch = make([]byte, len(chunk))
+					}
+					b := scratch[:len(chunk)]
+					copy(b, chunk)
 					s0 := simrt.Step()
 					n, err := out.Write(b)
+					for x := range b {
+						b[x] = 0xFF // scribble: the caller owns the buffer again
+					}
 					if simrt.Step()-s0 > 12 {
 						blockedW++
 					}
